@@ -194,8 +194,9 @@ def errStatus : Err → Nat
 /-- ranged reads of plain keys are repeated by the harness through `S3Service::call`; this is what the HTTP layer
     must show for an answer: status (206 exactly when `Content-Range` is present), `Content-Range`, `Content-Length`, body -/
 def viaHttp : Op → Bool
-  | .getObject _ k (some _) =>
-    keyOk k && (match keyPath k with
+  | .getObject b k (some _) =>
+    -- a bucket name with an upper-case letter cannot be addressed over HTTP (such buckets exist through the trait only)
+    !b.any (fun c => 65 ≤ c.toNat && c.toNat ≤ 90) && keyOk k && (match keyPath k with
       | some p => joinWith [slash] p == k
       | none => false)
   | _ => false
